@@ -33,5 +33,12 @@ for d in sorted(glob.glob(root + '/C*-[A-Z]')):
                                'exit_code': rc, 'violation_keys': keys}
     elif 'detected_by' in old:
         meta['detected_by'] = old['detected_by']
+    elif os.path.exists('/root/detect/%s.out' % id):
+        # the raw output of the last detection run of this seed (an earlier sweep)
+        txt = open('/root/detect/%s.out' % id, errors='replace').read()
+        keys = sorted(set(re.findall(r'^VIOLATION .* key=(\S+) ', txt, re.M)))[:6]
+        checks = open(d + '/checks').read().split() if os.path.exists(d + '/checks') else [meta['property']]
+        meta['detected_by'] = {'command': ' ; '.join('./check %s quick' % p for p in checks) + ' (VERIF_SEED=1), change applied with git apply, undone with git checkout -- . (result of an earlier sweep)',
+                               'exit_code': 1 if keys else 0, 'violation_keys': keys}
     json.dump(meta, open(d + '/meta.json', 'w'), indent=1)
     print(id, 'ok', len(needs))
